@@ -380,3 +380,81 @@ def all_closures(paths):
                 seen.add(id(c.node))
                 out.append(c)
     return out
+
+
+def grammar_op_strings(F: Facts, cls: str, field: str = 'op') -> List[str]:
+    """Operator strings the grammar can store in field `field` of class cls (from the action templates and the lexer)."""
+    from . import ctx as _C, actions as _A
+    T = _C.templates(F)
+    lm = _C.lexmodel(F)
+    out = []
+    for t in T.all():
+        terms = [t.result] + [freeze(e.value) for e in t.events if e.kind in ('store_attr',)] + \
+                [freeze(e.args) for e in t.events if e.kind == 'call']
+        for term in terms:
+            for c, flds in _A.new_nodes(term):
+                if c != cls:
+                    continue
+                v = dict(flds).get(field)
+                if v is None:
+                    continue
+                if v[0] == 'const' and isinstance(v[1], str):
+                    out.append(v[1])
+                elif v[0] == 'tok':
+                    texts = lm.token_texts.get(v[2])
+                    if texts:
+                        out.extend(sorted(texts))
+    return sorted(set(out))
+
+
+def table_keys_used(F: Facts, qual: str, field: str = 'op') -> List[str]:
+    """String keys of module-level dispatch tables that a method indexes with self.<field> (directly or via .get)."""
+    fi = F.func(qual)
+    sp = self_param(F, qual) if fi.cls else None
+    out: List[str] = []
+
+    def is_field(e):
+        return isinstance(e, ast.Attribute) and e.attr == field and isinstance(e.value, ast.Name) and e.value.id == sp
+
+    def table_of(e):
+        if isinstance(e, ast.Name):
+            r = F.resolve_name(fi.module, e.id)
+            if r[0] == 'modvar':
+                mod, _, var = r[1].rpartition('.')
+                m = F.modules.get(mod)
+                vals = m.assigns.get(var) if m else None
+                if vals and len(vals) == 1 and isinstance(vals[0], ast.Dict):
+                    return vals[0]
+        return None
+    seen_fns = set()
+
+    def scan(node, depth=0):
+        for n in ast.walk(node):
+            tab = None
+            if isinstance(n, ast.Subscript) and is_field(n.slice):
+                tab = table_of(n.value)
+            if isinstance(n, ast.Call) and isinstance(n.func, ast.Attribute) and n.func.attr == 'get' and n.args and is_field(n.args[0]):
+                tab = table_of(n.func.value)
+            if isinstance(n, ast.Compare) and any(isinstance(op, (ast.In, ast.NotIn)) for op in n.ops) and is_field(n.left):
+                tab = table_of(n.comparators[0])
+            if tab is not None:
+                for k in tab.keys:
+                    if isinstance(k, ast.Constant) and isinstance(k.value, str) and k.value not in out:
+                        out.append(k.value)
+            # helper methods of the same class:  self._apply(...)
+            if depth < 2 and isinstance(n, ast.Call) and isinstance(n.func, ast.Attribute) and isinstance(n.func.value, ast.Name) \
+                    and n.func.value.id == sp and fi.cls:
+                mq = F.find_method(fi.cls, n.func.attr)
+                if mq and mq not in seen_fns and mq in F.functions:
+                    seen_fns.add(mq)
+                    scan(F.functions[mq].node, depth + 1)
+    scan(fi.node)
+    return out
+
+
+def op_specs(F: Facts, cls: str, field: str = 'op') -> List[str]:
+    """Every operator string worth specialising the eval method of cls on."""
+    q = cls + '.' + EVAL
+    if op_field_kinds(F, cls).get(field) != 'str':
+        return []
+    return sorted(set(dispatch_strings(F, q, field)) | set(table_keys_used(F, q, field)) | set(grammar_op_strings(F, cls, field)))
